@@ -350,14 +350,16 @@ func (qpc *QuotaPreemptionContext) preemptVictims() {
 		if len(victims) > 0 {
 			qpc.results.claimedResource = victimsTotalResource
 			qpc.results.preemptedVictims = victims
+			marked := make([]*Allocation, 0, len(victims))
 			for _, victim := range victims {
-				err := victim.MarkPreempted()
+				err := victim.MarkPreemptedOnce()
 				if err != nil {
 					log.Log(log.SchedRequiredNodePreemption).Warn("allocation is already released, ignoring in quota preemption process",
 						zap.String("applicationID", victim.GetApplicationID()),
 						zap.String("allocationKey", victim.GetAllocationKey()))
 					continue
 				}
+				marked = append(marked, victim)
 				log.Log(log.SchedQuotaChangePreemption).Info("Preempting victim for quota change preemption",
 					zap.String("queue", qpc.queue.GetQueuePath()),
 					zap.String("allocationKey", victim.GetAllocationKey()),
@@ -367,7 +369,8 @@ func (qpc *QuotaPreemptionContext) preemptVictims() {
 				qpc.queue.IncPreemptingResource(victim.GetAllocatedResource())
 				victim.SendPreemptedByQuotaChangeEvent(qpc.queue.GetQueuePath())
 			}
-			app.notifyRMAllocationReleased(victims, si.TerminationType_PREEMPTED_BY_SCHEDULER,
+			// only the victims this attempt marked are announced: the others are gone or belong to another preemption
+			app.notifyRMAllocationReleased(marked, si.TerminationType_PREEMPTED_BY_SCHEDULER,
 				"preempting allocations to enforce new max quota for queue : "+qpc.queue.GetQueuePath())
 		}
 	}
